@@ -535,6 +535,11 @@ impl Writer {
             // The hint file of the output that was being written may lack entries whose data
             // is already in use, without it that output is recovered from its data file.
             let _ = fs::remove_file(utils::hintfile_name(&self.ctx.conf.path, merge_fileid));
+            // A failed copy can leave an entry in that output which is neither indexed nor
+            // counted, the file must still be known to later merges
+            if utils::datafile_name(&self.ctx.conf.path, merge_fileid).exists() {
+                self.ctx.stats.entry(merge_fileid).or_default();
+            }
             self.new_active_datafile(merge_fileid + 1)?;
         }
         result
